@@ -56,12 +56,15 @@ def _cases(tier, seed):
                 for es in (ext_sets if n <= 3 else ext_sets[:6]):
                     for mode in ('walkabout', 'walk'):
                         yield {'shape': shape, 'acts': list(acts), 'exts': es, 'mode': mode}
+                        # handlers may also be spelled in lower case (visit_node / depart_node): the documented dispatch fallback
+                        if n <= 2 and es:
+                            yield {'shape': shape, 'acts': list(acts), 'exts': es, 'mode': mode, 'lower': True}
     rnd = random.Random(seed)
     for _ in range(150 if tier == 'quick' else 1500):
         n = rnd.randint(4, 7)
         shape = rnd.choice(list(itertools.islice(_shapes(min(n, 6)), 60)))
         yield {'shape': shape, 'acts': [rnd.choice([0, 0, 1, 2, 3, 4]) for _ in range(8)],
-               'exts': [rnd.choice(WHENS) for _ in range(rnd.randint(0, 4))], 'mode': rnd.choice(['walkabout', 'walk'])}
+               'exts': [rnd.choice(WHENS) for _ in range(rnd.randint(0, 4))], 'mode': rnd.choice(['walkabout', 'walk']), 'lower': rnd.random() < 0.3}
 
 
 def _check(case):
@@ -81,6 +84,9 @@ def _check(case):
 
         def depart_Node(self, ob):
             trace.append((2, None, ob))
+    if case.get('lower'):
+        Main.visit_node, Main.depart_node = Main.visit_Node, Main.depart_Node
+        del Main.visit_Node, Main.depart_Node
 
     def mkext(when):
         class E(vis.VisitorExt):
@@ -92,8 +98,12 @@ def _check(case):
 
         def depart_Node(self, ob):
             trace.append((3, self, ob))
-        E.visit_Node = visit_Node
-        E.depart_Node = depart_Node
+        if case.get('lower'):
+            E.visit_node = visit_Node
+            E.depart_node = depart_Node
+        else:
+            E.visit_Node = visit_Node
+            E.depart_Node = depart_Node
         return E
     exts = vis.ExtList(*[mkext(w) for w in case['exts']])
     v = Main(exts)
